@@ -143,7 +143,7 @@ def make(cfg, select, known=()):
     B = LIN_B if alg in LINEAR else VAL_B
     D = cfg.get("D", 3)
     quant = cfg.get("quant", False)
-    known = [k for k in known if k["alg"] == alg]
+    known = [k for k in known if k.get("alg") == alg]
 
     def witness(E, m, lo, hi, pz):
         return dict(box=[[E.ev(m, lo[i]), E.ev(m, hi[i])] for i in range(n)], params=[E.ev(m, zi(p)) for p in pz])
@@ -302,6 +302,10 @@ def make(cfg, select, known=()):
                 return
             ks = [k for k in known if k["kind"] == "budget" and k["prop"] == "C04"]
             preds = [CLASSES[k["cls"]](cfg, c["lo"], c["hi"], c["pz"]) for k in ks]
+            if "C04" not in select:
+                if E.check(z3.Not(OR(preds))):
+                    E.acc.count("budget-unlisted")
+                return
             if E.check(z3.Not(OR(preds))):
                 m = E.model()
                 E.acc.violation(dict(prop="C04", kind="budget", alg=alg, n=n, cls=None, detail=str(exc), **witness(E, m, c["lo"], c["hi"], c["pz"])))
